@@ -428,6 +428,19 @@ int main(int argc, char** argv) {
           SU_vector own2 = a; SU_vector vw2(d, &own2[0]); vw2 = own2.Evolve(buf.data()); expect_same("viewOfOwner=owner.Evolve(buffer)", own2, r3, 0);
           SU_vector own4 = a; SU_vector vw4(d, &own4[0]); vw4 += own4.Evolve(buf.data()); SU_vector e4 = a + r3; expect_same("viewOfOwner+=owner.Evolve(buffer)", own4, e4, 0); }
         expect_same("fast-vs-direct", r3, r, 8 * EPS * (SA > 0 ? SA : 1));
+        { // generic (non-commensurate) level spacings and a generic time: entry (r,c) picks up exp(i t (E_r - E_c)), as in EvolveM
+          Mat Hg(d); std::vector<double> Eg(d);
+          for (int q = 0; q < d; q++) { Eg[q] = 0.731 * q * q - 1.377 * q + 0.113 * ((p[0] + 40000) % 7) + (q == 2 ? 0.0419 : 0.0); Hg(q, q) = Eg[q]; }
+          SU_vector HG = vec_from_matrix(Hg);
+          double tg = 1.2345 + 0.777 * ((p[0] + 40000) % 5) - 2.0;
+          Mat Eexp(d);
+          for (int r1 = 0; r1 < d; r1++) for (int c1 = 0; c1 < d; c1++) Eexp(r1, c1) = A(r1, c1) * std::exp(cd(0, tg * (Eg[r1] - Eg[c1])));      // SUAlgebra!EvolveM: exp(iHt) a exp(-iHt)
+          SU_vector rg = a.Evolve(HG, tg);
+          double Sg = SA * std::max(1.0, std::fabs(tg) * 20.0);
+          expect_vec("Evolve(generic H, generic t)", rg, Eexp, Sg);
+          std::vector<double> bg(HG.GetEvolveBufferSize()); HG.PrepareEvolve(bg.data(), tg);
+          SU_vector rg2 = a.Evolve(bg.data()); expect_vec("Evolve(buffer) generic", rg2, Eexp, Sg);
+        }
         { // relational clauses on times OFF the pi/4 lattice (no oracle needed): group law, t=0 identity, scalar products
           double t1 = 0.37 + 0.011 * p[1], t2 = -1.23 + 0.007 * p[0];
           SU_vector e1 = a.Evolve(H, t1), e12 = e1.Evolve(H, t2), e3 = a.Evolve(H, t1 + t2), e0 = a.Evolve(H, 0.0);
@@ -442,6 +455,21 @@ int main(int argc, char** argv) {
       } else if (op == "rotate") {
         SU_vector r = a.Rotate((unsigned)p[0], (unsigned)p[1], p[2] * M_PI / 4, p[3] * M_PI / 4);
         expect_vec("Rotate(i,j,th,del)", r, R, SA * 4);
+        if (idx % 3 == 0) {
+          // OFF the pi/4 lattice: the specification's definition R^dagger A R (RotM) evaluated in floating point for generic angles
+          // (negative, beyond 2 pi, no special relation between theta and delta), for EVERY index pair of this dimension
+          for (int jj = 1; jj < d; jj++) for (int ii = 0; ii < jj; ii++) {
+            double th = -3.1 + 0.617 * ((idx / 3 + 5 * ii + 3 * jj) % 17), de = 2.9 - 0.433 * ((idx / 3 + 2 * ii + 7 * jj) % 19);
+            Mat Rm(d); for (int q = 0; q < d; q++) Rm(q, q) = 1;
+            Rm(ii, ii) = Rm(jj, jj) = std::cos(th); Rm(ii, jj) = std::sin(th) * std::exp(cd(0, -de)); Rm(jj, ii) = -std::sin(th) * std::exp(cd(0, de));
+            Mat E(d);
+            for (int r1 = 0; r1 < d; r1++) for (int c1 = 0; c1 < d; c1++) { cd sum = 0;
+              for (int x = 0; x < d; x++) for (int y = 0; y < d; y++) sum += std::conj(Rm(x, r1)) * A(x, y) * Rm(y, c1);
+              E(r1, c1) = sum; }
+            SU_vector rg = a.Rotate((unsigned)ii, (unsigned)jj, th, de);
+            expect_vec("Rotate(i,j,generic th,del) ij=" + std::to_string(ii) + std::to_string(jj), rg, E, SA * 4);
+          }
+        }
       } else if (op == "tob1" || op == "tob0") {
         Const params; set_params(params, d, h);
         SU_vector r = a;
@@ -463,6 +491,18 @@ int main(int argc, char** argv) {
           SU_vector r5 = a.UDaggerTransform(&Uv.matrix); expect_same("UDaggerTransform(U view)", r5, r3, 0);
         }
         gsl_matrix_complex_free(bigU);
+        if (idx % 3 == 0) {   // generic mixing angles and phases on every pair: the kernels' route and the matrix route agree, and B0 undoes B1
+          Const gp;
+          for (int jj = 1; jj < d; jj++) for (int ii = 0; ii < jj; ii++) { gp.SetMixingAngle(ii, jj, -2.3 + 0.377 * ((idx + 3 * ii + jj) % 23)); gp.SetPhase(ii, jj, 1.7 - 0.291 * ((idx + ii + 5 * jj) % 29)); }
+          SU_vector g1 = a; g1.RotateToB1(gp);
+          auto GU = gp.GetTransformationMatrix(d);
+          SU_vector g2 = a.Rotate(GU.get());
+          expect_same("RotateToB1(generic)=Rotate(U)", g1, g2, 4096 * EPS * (SA > 0 ? SA : 1));
+          SU_vector g3 = g1; g3.RotateToB0(gp);
+          expect_same("RotateToB0(RotateToB1(a))=a (generic)", g3, a, 4096 * EPS * (SA > 0 ? SA : 1));
+          SU_vector g4 = a; g4.RotateToB0(gp); SU_vector g5 = a.UDaggerTransform(GU.get());
+          expect_same("RotateToB0(generic)=UDaggerTransform(U)", g4, g5, 4096 * EPS * (SA > 0 ? SA : 1));
+        }
         // identity component and scalar products are preserved
         if (!(std::fabs(r[0] - a[0]) <= TOLF * EPS * (SA > 0 ? SA : 1))) mismatch("identity-component", std::fabs(r[0] - a[0]), 0);
       } else if (op == "wrot") {
